@@ -1243,6 +1243,17 @@ func vC18CaseSpelling(t *testing.T, r *rand.Rand, out *vC18Out) {
 		desc, true, "", "")
 }
 
+// the other form of the same domain: plain <-> wildcard of one suffix ("" when there is none)
+func vC18Twin(e string) string {
+	switch {
+	case e == "" || e == "." || e == "*." || e == "*" || strings.Contains(e, ".."):
+		return ""
+	case strings.HasPrefix(e, "*."):
+		return e[2:]
+	}
+	return "*." + e
+}
+
 // a pool of keys small enough that removals hit and batches overlap
 func vC18KeyPool(r *rand.Rand, prefix string, special bool) []string {
 	n := 4 + r.Intn(5)
@@ -1260,6 +1271,13 @@ func vC18KeyPool(r *rand.Rand, prefix string, special bool) []string {
 			}
 		}
 		pool = append(pool, e)
+	}
+	// both forms of one domain in the pool, as often as not: a batch may then list a name
+	// together with its own wildcard, and calls may swap one form for the other
+	if r.Intn(2) == 0 {
+		if tw := vC18Twin(pool[r.Intn(len(pool))]); tw != "" {
+			pool = append(pool, tw)
+		}
 	}
 	if special {
 		for i := 0; i < 1+r.Intn(2); i++ {
@@ -1299,12 +1317,22 @@ func vC18RandOp(r *rand.Rand, pool []string) vC18Op {
 		for i := 0; i < n; i++ {
 			ks = append(ks, pick())
 		}
+		if n > 0 && r.Intn(4) == 0 { // a domain together with its own wildcard form
+			if tw := vC18Twin(ks[r.Intn(len(ks))]); tw != "" {
+				ks = append(ks, tw)
+			}
+		}
 		return vC18Op{"setbatch", ks}
 	default:
 		n := r.Intn(4)
 		ks := []string{}
 		for i := 0; i < n; i++ {
 			ks = append(ks, pick())
+		}
+		if n > 0 && r.Intn(4) == 0 {
+			if tw := vC18Twin(ks[r.Intn(len(ks))]); tw != "" {
+				ks = append(ks, tw)
+			}
 		}
 		return vC18Op{"removebatch", ks}
 	}
@@ -1391,6 +1419,39 @@ func vC18CaseHistory(t *testing.T, r *rand.Rand, out *vC18Out, special bool) {
 		} else {
 			vC18EmitReload(r, out, "reload", dir, cfg.Whitelist, m1, wild1, "")
 		}
+	}
+}
+
+// a sequential history around one batch that holds both forms of one domain
+func vC18CaseTwinBatch(t *testing.T, r *rand.Rand, out *vC18Out, nops int) {
+	dir := vC18Dir(t)
+	cfg := vC18Cfg(r, dir)
+	b := vC18NewQuiet(cfg)
+	m0, wild0, w := vC18Dump(b)
+	d := vC18Name(r)
+	other := "keep-" + vC18Name(r)
+	ops := []vC18Op{
+		{"set", []string{other}},
+		{"setbatch", []string{vC18Spell(r, d), "*." + d}},
+		{"removebatch", []string{"*." + d, d}},
+		{"setbatch", []string{"*." + d, d, "x." + d}},
+		{"remove", []string{d}},
+	}
+	ops = ops[:nops]
+	var parts []string
+	var descOps []any
+	for _, op := range ops {
+		ret := op.apply(b)
+		parts = append(parts, fmt.Sprintf("(%s, %d%%N)", op.coq(), ret))
+		descOps = append(descOps, []any{op.Kind, op.Keys, ret})
+	}
+	m1, wild1, _ := vC18Dump(b)
+	present, file := vC18ReadLocal(dir)
+	out.emit("history-twin-batch", fmt.Sprintf("CaseHistory %s %s %s [%s] %s %s %s", vC18List(m0), vC18List(wild0), vC18List(w), strings.Join(parts, "; "),
+		vC18List(m1), vC18List(wild1), vC18OptStr(present, file)),
+		map[string]any{"m0": m0, "wild0": wild0, "w": w, "ops": descOps, "m1": m1, "wild1": wild1, "file_present": present, "file": file}, true, "", "")
+	if present {
+		vC18EmitReload(r, out, "reload-twin-batch", dir, cfg.Whitelist, m1, wild1, "")
 	}
 }
 
@@ -1503,10 +1564,11 @@ func vC18MutexWaiters(m *sync.Mutex) (int, bool) {
 }
 
 // forced schedules: snapshots reach persist() in an arbitrary order, interleaved with later mutations
-func vC18CaseSched(t *testing.T, r *rand.Rand, out *vC18Out) { vC18CaseSchedWith(t, r, out, false) }
+func vC18CaseSched(t *testing.T, r *rand.Rand, out *vC18Out) { vC18CaseSchedWith(t, r, out, false, false) }
 
 // forced: a list on disk, a change and the call that takes it back, then every snapshot's persist() started behind the gate, newest first
-func vC18CaseSchedWith(t *testing.T, r *rand.Rand, out *vC18Out, forced bool) {
+// swap (with forced): the change is "one form of a domain removed", the second call sets the other form
+func vC18CaseSchedWith(t *testing.T, r *rand.Rand, out *vC18Out, forced, swap bool) {
 	dir := vC18Dir(t)
 	cfg := vC18Cfg(r, dir)
 	pool := vC18KeyPool(r, "", false)
@@ -1580,7 +1642,25 @@ func vC18CaseSchedWith(t *testing.T, r *rand.Rand, out *vC18Out, forced bool) {
 			persistNow(0)
 		}
 		undo = nil
-		for try := 0; try < 20 && len(undo) == 0; try++ {
+		swapped := false
+		if swap {
+			// one form of a listed domain goes, the other form comes
+			var listed []string
+			for e := range entries() {
+				if vC18Twin(e) != "" {
+					listed = append(listed, e)
+				}
+			}
+			sort.Strings(listed)
+			if len(listed) > 0 {
+				e := listed[r.Intn(len(listed))]
+				if mutate(vC18Op{"remove", []string{e}}, false) {
+					swapped = mutate(vC18Op{"set", []string{vC18Twin(e)}}, false)
+				}
+			}
+			undo = nil
+		}
+		for try := 0; !swapped && try < 20 && len(undo) == 0; try++ {
 			mutate(vC18RandOp(r, pool), false)
 		}
 		if len(undo) > 0 {
@@ -2833,8 +2913,13 @@ func TestVerifC18(t *testing.T) {
 	vC18CaseAlphabet(t, rand.New(rand.NewSource(18)), out)
 	// and fixed schedules with every persist() in flight at once, newest first, the newest
 	// snapshot as often as not equal in content to the file (A-B-A)
-	for i, fr := 0, rand.New(rand.NewSource(1805)); i < 5; i++ {
-		vC18CaseSchedWith(t, fr, out, true)
+	for i, fr := 0, rand.New(rand.NewSource(1805)); i < 8; i++ {
+		vC18CaseSchedWith(t, fr, out, true, i%2 == 1)
+	}
+	// and fixed sequential histories: something saved, then ONE batch that lists a domain
+	// together with its own wildcard form (set, then removed again)
+	for i, fr := 0, rand.New(rand.NewSource(1809)); i < 4; i++ {
+		vC18CaseTwinBatch(t, fr, out, 2+i) // stops after the batch, after its removal, ...
 	}
 	// random histories with refreshes that bring remote lists (side by side, about two seconds)
 	nrh := 8
